@@ -142,6 +142,17 @@ Example C28_tamper_never_other_position_ex :
   read_changes_resume aopen gcm_b64 ex_type (firstn 8 tok) = RInvalid.
 Proof. vm_compute. repeat split. Qed.
 
+(* the string-level reading of tamper resistance is false (base64 malleability); the accepted
+   variant carries the same ciphertext and the same position *)
+Theorem C28_token_string_uniqueness_refuted :
+  exists seal aopen issued, aead_authentic seal aopen issued /\
+  exists n u t s,
+    s <> issue_token seal gcm_b64 n u t /\
+    read_changes_resume aopen gcm_b64 t (issue_token seal gcm_b64 n u t) = RFrom u /\
+    read_changes_resume aopen gcm_b64 t s = RFrom u.
+Proof. exact token_string_uniqueness_refuted. Qed.
+Print Assumptions C28_token_string_uniqueness_refuted.
+
 (* ---- the unauthenticated len(data)==0 short cut of GCMEncrypter.Decrypt ---- *)
 
 Theorem C28_empty_bypass_is_start :
